@@ -388,7 +388,7 @@ template<class T, size_t N, int S, int PK, int F> static void qr_case(const char
     ev.ints("shape", shape).ints("Rc", classes(Rm.data(), n * n));
     ev.ints("P", praw).ints("perm", as_ll_vec(p)).num("pok", pok ? 1 : 0).arr("PA", PAl.data(), n * n);
     ev.num("exact", exact ? 1 : 0).num("qs", qs).num("rs", rs).ints("Qs", Qs).ints("Rs", Rs).num("detexact", detexact).num("dets", dets);
-    ev.num("r_orth", r_orth).num("r_row", r_row).num("r_col", r_col).num("hasdet", hasdet).num("r_det", r_det).num("cond_milli", milli(c, 1.0L));
+    ev.num("r_orth", r_orth).num("r_row", r_row).num("r_col", r_col).num("hasdet", hasdet).num("r_det", r_det).num("cond_milli", milli(c, 1.0L)).num("cond_k", milli(c, 1.0e6L));
     ev.s += "}"; ev.emit();
 }
 '''
@@ -554,6 +554,9 @@ class LinalgCheck(Check):
                 n_ev += 1
                 cm = o["cond_milli"] if isinstance(o["cond_milli"], list) else [o["cond_milli"]]
                 ood = max(cm) > COND_MAX_MILLI or o.get("growth_milli", 0) > GROWTH_MAX_MILLI
+                if "cond_k" in o:             # QR: Linalg!QRInDomain
+                    ood = o["cond_k"] > (100000 if ev.get("in", {}).get("T") == "f64" else 10)
+                    self.max_cond_k = max(getattr(self, "max_cond_k", 0), 0 if ood else o["cond_k"])
                 skipped += 1 if ood else 0
                 exact += 1 if o.get("exact") == 1 else 0
                 if not ood:
